@@ -119,6 +119,17 @@ def cookie_structured(scope_variants=True):
                 ops += [("introspect", cl2 if i % 2 else cl, ("tok", i)) for i in range(2, 10)]
                 cases.append(("cookie-%s-%s-%s" % ("oidc" if oidc else "oauth2", cl, vname), oidc, False, ops, ["explicit", "implied", "handler"][k % 3]))
                 k += 1
+        # the age of the authentication (AuthnEvent.is_valid, valid for 3600 s in the harness configuration): the identical
+        # request comes back with the cookie one second before, exactly at and one second after valid_until
+        for d in (3599, 3600, 3601):
+            cl = "client_1"
+            cb, cb2 = sess.registered_redirects(cl)
+            base = ["openid", "email", "offline_access", "phone"]
+            ops = [("authzc", 0, "diana", cl, base, cb, True), ("tick", d), ("authzc", 0, "diana", cl, base, cb, False),
+                   ("tparse", cl, ("tok", 1), "same"), ("proc", 0, None), ("tparse", cl, ("tok", 0), "same"), ("proc", 1, None)]
+            ops += [("introspect", cl, ("tok", i)) for i in range(1, 5)]
+            cases.append(("cookie-%s-authn-age-%d" % ("oidc" if oidc else "oauth2", d), oidc, False, ops, ["explicit", "implied", "handler"][k % 3]))
+            k += 1
         if scope_variants:
             # the first authorization is granted NOTHING (no requested scope is allowed for the client); the identical request
             # comes back with the cookie; then a request for more
